@@ -26,6 +26,7 @@ MODELS_C12 = [
     "m17_two_parking_writers_one_credit_vs_close",
     "m22_two_writers_no_credit",
     "m24_drop_notification_vs_handle_release",
+    "m25_task_acknowledge_vs_flow_id_allocation",
     "m18_parked_writer_vs_local_shutdown",
     "m19_bridge_waits_for_credit_vs_acknowledge",
     "m20_bridge_waits_for_credit_vs_close",
